@@ -223,11 +223,35 @@ class Monitors(Listener):
                                     "nowhere")
         elif k == "monitor":
             self.check_row_pre()
+        elif k == "telescope" and self.want("C08"):
+            # C08: an observation that falls due while the system is completely idle starts in this very pass
+            tel = sim.instrument
+            cv = cluster_view(sim)
+            hot, cold = sim.buffer.hot[0], sim.buffer.cold[0]
+            info["_idle_due"] = None
+            idle = (hot.current_capacity == hot.total_capacity and cold.current_capacity == cold.total_capacity
+                    and not cv["running"] and not cv["occupied"] and not cv["ingest"] and not cv["idle"]
+                    and not sim.scheduler.observation_queue and tel.telescope_use == 0
+                    and sim.scheduler.provision_ingest == 0 and not self.promised
+                    and all(str(o.status.value) in ("WAITING", "FINISHED") for o in tel.observations))
+            if idle:
+                due = [o for o in tel.observations if str(o.status.value) == "WAITING" and o.est <= sim.env.now]
+                if due:
+                    o = due[0]
+                    d = tel.pipelines[o.name]["ingest_demand"]
+                    vol = o.ingest_data_rate * o.duration
+                    if (o.demand <= tel.total_arrays and d <= min(tel.max_ingest, len(cv["available"]))
+                            and vol <= hot.current_capacity and vol <= cold.current_capacity
+                            and o.ingest_data_rate <= hot.max_ingest_data_rate and o.duration >= 1):
+                        info["_idle_due"] = o
         elif k == "alloctasks":
             info["_cv"] = cluster_view(sim)
             ob = info["args"][0] if info["args"] else None
             plan = getattr(ob, "plan", None)
             # C07: the workflow is complete when this block begins (every task of the plan FINISHED)
+            # C15: a task of the plan that is FINISHED and flagged delayed when this block begins
+            info["_flagged_done"] = [t.id for t in (plan.tasks if plan is not None else [])
+                                     if str(getattr(t.task_status, "name", t.task_status)) == "FINISHED" and t.delay_flag]
             info["_wf_complete"] = bool(plan is not None and plan.tasks and all(
                 str(getattr(t.task_status, "name", t.task_status)) == "FINISHED" for t in plan.tasks))
         elif k == "provingest" and info["blocks"] == 0:
@@ -250,6 +274,26 @@ class Monitors(Listener):
             self.after_alloc_begin(info, outcome)
         if k == "monitor":
             self.check_row_post()
+        if k == "telescope" and info.get("_idle_due") is not None and outcome[0] != "raise":
+            o = info["_idle_due"]
+            if str(o.status.value) == "WAITING" and o.name not in self.admit:
+                self.viol("C08", "idle-system-late-start",
+                          "%s due %s: the system was completely idle at %s and everything it needs was free, it did not begin" % (
+                              o.name, fr(o.est), fr(now)))
+        if k == "alloctasks" and info.get("_flagged_done") and outcome[0] != "raise" and self.want("C15"):
+            # ... is pruned from the plan by this block, and the scheduler reports DELAYED from then on
+            st_ = str(getattr(sim.scheduler.schedule_status, "value", sim.scheduler.schedule_status))
+            if "DELAYED" not in st_.upper():
+                self.viol("C15", "delay-not-reported-when-task-completed",
+                          "%s finished and flagged delayed when the allocate_tasks block began at %s, schedule status %s after it" % (
+                              info["_flagged_done"][:3], fr(now), st_))
+        if k == "alloctasks" and info.get("_wf_complete") and outcome[0] != "raise" and self.want("C09"):
+            # C09: ... and the reservation of that workflow is released by this very block
+            ob = info["args"][0]
+            if ob.name in dict(cluster_view(sim)["idle"]):
+                self.viol("C09", "reservation-not-released-when-workflow-completed",
+                          "%s: every task FINISHED when its allocate_tasks block began at %s, reservation %s still held after it" % (
+                              ob.name, fr(now), dict(cluster_view(sim)["idle"])[ob.name]))
         if k == "alloctasks" and info.get("_wf_complete") and outcome[0] != "raise" and self.want("C07"):
             # ... so this very block hands the observation back: its data is freed when its workflow completes,
             # not some scheduling rounds later
@@ -602,6 +646,15 @@ class Monitors(Listener):
             if bool(sim.cluster.is_idle()) != truth_cluster:
                 self.viol("C19", "cluster-is_idle-wrong", "is_idle=%s running=%s occ=%s ingest=%s" % (
                     sim.cluster.is_idle(), cv["running"], cv["occupied"], cv["ingest"]))
+            if truth_cluster and bool(sim.cluster.is_idle()):
+                # ... and no task is inside the interval it records: a task that has stamped its finish time keeps
+                # its machine, and stays "running", until that time
+                fin = sim.cluster._clusters["default"]["tasks"]["finished"]
+                for t_ in fin:
+                    if t_.ast != -1 and t_.aft != -1 and F(t_.ast) <= F(sim.env.now) < F(t_.aft):
+                        self.viol("C19", "cluster-idle-inside-a-recorded-interval",
+                                  "is_idle() at %s, %s records [%s, %s)" % (fr(sim.env.now), t_.id, fr(t_.ast), fr(t_.aft)))
+                        break
             truth_buf = hot.current_capacity == hot.total_capacity and cold.current_capacity == cold.total_capacity
             if bool(sim.buffer.is_empty()) != truth_buf:
                 self.viol("C19", "buffer-is_empty-wrong", "")
@@ -744,6 +797,12 @@ class Monitors(Listener):
             if o.plan is None or o.plan.graph is None:
                 continue
             g = o.plan.graph
+            # the volume of an edge as the workflow FILE gives it (not as the plan's tasks carry it)
+            filevol = {}
+            for so in spec["observations"]:
+                if so["name"] == o.name:
+                    for e in so["workflow"]["edges"]:
+                        filevol[(str(e[0]), str(e[1]))] = e[2]
             for t in g.nodes:
                 if t.ast == -1:
                     continue
@@ -754,7 +813,9 @@ class Monitors(Listener):
                                   "%s ast %s, pred %s aft %s" % (t.id, fr(t.ast), p.id, fr(p.aft)))
                     if t.id in self.alloc and p.id in self.alloc and self.alloc[p.id][1] != self.alloc[t.id][1]:
                         bw = sim.cluster.machine_ids[self.alloc[t.id][1]].bandwidth
-                        arrivals.append(F(p.aft) + Fraction(t.io[p.id]) / Fraction(bw))
+                        vol = filevol.get((str(p.id).rsplit("_", 1)[-1], str(t.id).rsplit("_", 1)[-1]), t.io[p.id])
+                        unit = spec.get("timestep", "seconds")
+                        arrivals.append(F(p.aft) + Fraction(vol) / Fraction(bw))
                 if t.id in self.alloc and spec["scheduling"]["kind"] != "adversary":
                     at = Fraction(self.alloc[t.id][0]) if not isinstance(self.alloc[t.id][0], str) else Fraction(self.alloc[t.id][0])
                     want = max([at] + arrivals)
